@@ -132,8 +132,17 @@ def keyword_from_hash(kw_hash: int, name: str, ns: str | None = None) -> Keyword
         found = _INTERN.val_at(kw_hash)
         if found:
             return found
+        # `kw_hash` may have been computed by another process (it is stored in cached
+        # bytecode and in pickles), where strings hash differently. Keywords must be
+        # interned under the hash this process computes for them, or the same keyword
+        # would be interned twice.
+        local_hash = hash_kw(name, ns)
+        if local_hash != kw_hash:
+            found = _INTERN.val_at(local_hash)
+            if found:
+                return found
         kw = Keyword(name, ns=ns)
-        _INTERN = _INTERN.assoc(kw_hash, kw)
+        _INTERN = _INTERN.assoc(local_hash, kw)
         return kw
 
 
